@@ -644,7 +644,31 @@ func genC16Case(t *rapid.T) C16Case {
 }
 
 // c16Excluded: regions of listed known findings.
+// execTargetConflict: two exec records of one path under one profile and qualifier
+// whose targets differ (one may have none).
+func execTargetConflict(c C16Case) bool {
+	seen := map[string]string{}
+	for _, r := range c.Recs {
+		if (r.Class != "exec" && r.Class != "file") || !strings.Contains(r.Fields["requested_mask"], "x") {
+			continue
+		}
+		audit := "plain"
+		if r.State == "AUDIT" {
+			audit = "audit"
+		}
+		k := r.Profile + "|" + audit + "|" + r.Fields["name"]
+		if t, ok := seen[k]; ok && t != r.Fields["target"] {
+			return true
+		}
+		seen[k] = r.Fields["target"]
+	}
+	return false
+}
+
 func c16Excluded(c C16Case) string {
+	if IsKnown("C16", "log:exec-target-conflict") && execTargetConflict(c) {
+		return "log:exec-target-conflict"
+	}
 	for _, r := range c.Recs {
 		for _, k := range KnownKeys("C16", "") {
 			if c16Matches(k, r) {
@@ -659,8 +683,8 @@ func c16Excluded(c C16Case) string {
 func c16Matches(key string, r C16Rec) bool {
 	name := r.Fields["name"]
 	switch key {
-	case "log:ix-with-target":
-		return r.Class == "exec" && r.Fields["target"] != ""
+	case "log:exec-target-conflict":
+		return false // a property of the whole case, see execTargetConflict
 	case "generalise:sh-prefix":
 		return (r.Class == "file" || r.Class == "exec" || r.Class == "link") && (strings.HasPrefix(name, "/usr/bin/sh") || strings.HasPrefix(name, "/usr/bin/bash") || strings.HasPrefix(name, "/usr/bin/dash")) &&
 			name != "/usr/bin/sh" && name != "/usr/bin/bash" && name != "/usr/bin/dash"
@@ -799,9 +823,9 @@ func c12LogExcluded(c C16Case) string {
 		if r.Class == "unix" && IsKnown("C12", "log:unix-protocol") {
 			return "log:unix-protocol"
 		}
-		if r.Class == "exec" && r.Fields["target"] != "" && IsKnown("C12", "log:ix-with-target") {
-			return "log:ix-with-target"
-		}
+	}
+	if IsKnown("C12", "log:exec-target-conflict") && execTargetConflict(c) {
+		return "log:exec-target-conflict"
 	}
 	return ""
 }
@@ -827,13 +851,18 @@ func TestC16_Witnesses(t *testing.T) {
 	execT := file("/usr/bin/preconv", "x", map[string]string{"target": "man_groff"})
 	execT.Recs[0].Class = "exec"
 	execT.Recs[0].Fields["operation"] = "exec"
+	execPlain := file("/usr/bin/preconv", "x", nil)
+	execPlain.Recs[0].Class = "exec"
+	execPlain.Recs[0].Fields["operation"] = "exec"
+	execPlain.Recs[0].Fields["comm"] = "tok1q"
+	execPair := C16Case{Recs: []C16Rec{execT.Recs[0], execPlain.Recs[0]}}
 	ws := []struct {
 		key, what string
 		c         C16Case
 	}{
 		{"", "block device numbers are not dbus names", file("/sys/dev/block/8:16/uevent", "r", nil)},
 		{"", "udev data names are not dbus names", file("/run/udev/data/b8:16", "r", nil)},
-		{"log:ix-with-target", "an exec record with a target yields 'ix -> target', which does not load", execT},
+		{"log:exec-target-conflict", "exec of one path with and without a target yields 'ix' and 'ix -> target' side by side, which does not load", execPair},
 	}
 	for i, w := range ws {
 		ev.Case(fmt.Sprintf("w%d", i))
@@ -870,7 +899,9 @@ func TestC12_LogWitnesses(t *testing.T) {
 		c         C16Case
 	}{
 		{"log:unix-protocol", "unix rule printed with protocol=0", mk("unix", "operation", "connect", "class", "net", "profile", "foo", "pid", "1", "comm", "tok0q", "family", "unix", "sock_type", "stream", "protocol", "0", "requested_mask", "send receive", "denied_mask", "send receive", "addr", "none", "peer_addr", "@/tmp/.X11-unix/X0", "peer", "xorg")},
-		{"log:ix-with-target", "exec rule printed as 'ix -> target'", mk("exec", "operation", "exec", "class", "file", "profile", "foo", "name", "/usr/bin/preconv", "pid", "1", "comm", "tok0q", "requested_mask", "x", "denied_mask", "x", "fsuid", "1000", "ouid", "0", "target", "man_groff")},
+		{"log:exec-target-conflict", "exec rules printed as 'ix' and 'ix -> target' for one path", C16Case{Recs: []C16Rec{
+			mk("exec", "operation", "exec", "class", "file", "profile", "foo", "name", "/usr/bin/preconv", "pid", "1", "comm", "tok0q", "requested_mask", "x", "denied_mask", "x", "fsuid", "1000", "ouid", "0", "target", "man_groff").Recs[0],
+			mk("exec", "operation", "exec", "class", "file", "profile", "foo", "name", "/usr/bin/preconv", "pid", "1", "comm", "tok1q", "requested_mask", "x", "denied_mask", "x", "fsuid", "1000", "ouid", "0").Recs[0]}}},
 	}
 	for i, w := range ws {
 		ev.Case(fmt.Sprintf("w%d", i))
